@@ -36,6 +36,9 @@ type BGVCase struct {
 	PBPowers    []int       `json:"pbPowers"`    // powers generated beforehand
 	Lazy        bool        `json:"lazy"`        // Polynomial.Lazy (lazy relinearisation)
 	MixedParity bool        `json:"mixedParity"` // vector whose polynomials carry different parity flags
+	Degree2     int         `json:"degree2"`     // > 0: a second polynomial evaluated afterwards with the SAME evaluator and the same
+	Coeffs2     [][]uint64  `json:"coeffs2"`     // input object (ciphertext, or the PowerBasis that now holds the powers of the first run)
+	Target2     uint64      `json:"target2"`
 }
 
 func (c BGVCase) RandSeed() uint64 { return c.Seed }
@@ -180,7 +183,34 @@ func genBGV(t *rapid.T) BGVCase {
 	if c.Kind != "bignum" && !c.MixedParity {
 		c.Lazy = rapid.IntRange(0, 7).Draw(t, "lazy") == 0
 	}
+	if !c.Short && !c.MixedParity && rapid.IntRange(0, 2).Draw(t, "second") != 0 {
+		// second polynomial: any degree the remaining budget admits (scale-invariant mode: not deeper than the first one)
+		d2 := c.Level
+		if c.Invariant || d2 > depth+1 {
+			d2 = depth
+			if !c.Invariant && depth+1 <= c.Level {
+				d2 = depth + 1
+			}
+		}
+		if d2 > 5 {
+			d2 = 5
+		}
+		if d2 >= 1 {
+			c.Degree2 = genDegree2(t, d2)
+			for i := 0; i < npoly; i++ {
+				c.Coeffs2 = append(c.Coeffs2, rapid.SliceOfN(rapid.Uint64Range(0, T-1), c.Degree2+1, c.Degree2+1).Draw(t, fmt.Sprintf("coeffs2_%d", i)))
+			}
+			c.Target2 = genUnitModT(t, T, "target2")
+		}
+	}
 	return c
+}
+
+// genDegree2 draws the degree of a follow-up polynomial of depth <= maxDepth.
+func genDegree2(t *rapid.T, maxDepth int) int {
+	depth := maxDepth - rapid.IntRange(0, maxDepth-1).Draw(t, "deg2DepthDown")
+	lo := 1 << (depth - 1)
+	return lo + rapid.IntRange(0, lo-1).Draw(t, "deg2InDepth")
 }
 
 func bgvValues(pat string, seed uint64, n int, T uint64) []uint64 {
@@ -256,25 +286,35 @@ func runBGV(c BGVCase, rec *h.Rec) error {
 	}
 
 	// polynomial object
-	var pol interface{}
-	switch c.Kind {
-	case "bignum":
-		pol = bignum.NewPolynomial(bignum.Monomial, c.Coeffs[0], nil)
-	case "poly":
-		p := bgvpoly.NewPolynomial(c.Coeffs[0])
-		setParity(&p.Polynomial, c.Shapes[0].Parity)
-		p.Lazy = c.Lazy
-		pol = p
-	default:
-		pv, err := bgvpoly.NewPolynomialVector(c.Coeffs, ownersToMapping(c.Owners, npoly))
+	mkPol := func(coeffs [][]uint64, flagged bool) (interface{}, error) {
+		parity := func(i int) string {
+			if flagged {
+				return c.Shapes[i].Parity
+			}
+			return "general"
+		}
+		switch c.Kind {
+		case "bignum":
+			return bignum.NewPolynomial(bignum.Monomial, coeffs[0], nil), nil
+		case "poly":
+			p := bgvpoly.NewPolynomial(coeffs[0])
+			setParity(&p.Polynomial, parity(0))
+			p.Lazy = c.Lazy
+			return p, nil
+		}
+		pv, err := bgvpoly.NewPolynomialVector(coeffs, ownersToMapping(c.Owners, npoly))
 		if err != nil {
-			return h.Failf("C13:bgv:NewPolynomialVector", "%v", err)
+			return nil, h.Failf("C13:bgv:NewPolynomialVector", "%v", err)
 		}
 		for i := range pv.Value {
-			setParity(&pv.Value[i].Polynomial, c.Shapes[i].Parity)
+			setParity(&pv.Value[i].Polynomial, parity(i))
 			pv.Value[i].Lazy = c.Lazy
 		}
-		pol = pv
+		return pv, nil
+	}
+	pol, err := mkPol(c.Coeffs, true)
+	if err != nil {
+		return err
 	}
 
 	polyEval := bgvpoly.NewEvaluator(params, eval)
@@ -282,8 +322,10 @@ func runBGV(c BGVCase, rec *h.Rec) error {
 
 	var out *rlwe.Ciphertext
 	var pmsg string
+	var pb cpoly.PowerBasis
+	ctBefore := ctHash(ct)
 	if c.FromPB {
-		pb := cpoly.NewPowerBasis(ct, bignum.Monomial)
+		pb = cpoly.NewPowerBasis(ct, bignum.Monomial)
 		for _, n := range c.PBPowers {
 			if err = pb.GenPower(n, false, eval); err != nil {
 				if c.Short {
@@ -345,52 +387,102 @@ func runBGV(c BGVCase, rec *h.Rec) error {
 		rec.Class("bfv:level<depth:evaluated")
 	}
 
-	// depth contract
-	wantLevel := c.Level - depth
-	if c.Invariant {
-		wantLevel = c.Level
+	// depth / scale / value contract of one evaluation
+	verify := func(out *rlwe.Ciphertext, coeffs [][]uint64, degree int, target rlwe.Scale, stage string) (bool, error) {
+		depth := advertisedDepth(degree)
+		wantLevel := c.Level - depth
+		if c.Invariant {
+			wantLevel = c.Level
+		}
+		if out.Level() != wantLevel {
+			return false, h.Failf("C13:"+mode+":level"+stage, "degree %d: input level %d, output level %d, want %d", degree, c.Level, out.Level(), wantLevel)
+		}
+		if out.Scale.Cmp(target) != 0 {
+			return false, h.Failf("C13:"+mode+":scale"+stage, "output scale %v != target scale %v", out.Scale.Uint64(), target.Uint64())
+		}
+		if out.Degree() != 1 {
+			return false, h.Failf("C13:"+mode+":degree"+stage, "output ciphertext degree %d", out.Degree())
+		}
+		got := make([]uint64, slots)
+		if err := ecd.Decode(dec.DecryptNew(out), got); err != nil {
+			return false, h.Failf("C13:bgv:decode", "%v", err)
+		}
+		bad, first := 0, ""
+		for i := 0; i < slots; i++ {
+			var want uint64
+			switch c.Kind {
+			case "vector":
+				if o := c.Owners[i]; o >= 0 {
+					want = hornerModT(coeffs[o], values[i], T)
+				}
+			default:
+				want = hornerModT(coeffs[0], values[i], T)
+			}
+			if got[i] != want {
+				if bad == 0 {
+					first = fmt.Sprintf("slot %d: x=%d got %d want %d", i, values[i], got[i], want)
+				}
+				bad++
+			}
+		}
+		if bad != 0 {
+			par := c.Shapes[0].Parity
+			if stage != "" {
+				par = "general"
+			}
+			key, msg := valueKey(mode, c.Kind, c.Lazy, c.MixedParity, par, degree)+stage, fmt.Sprintf("%d/%d slots wrong (degree %d, level %d, t=%d); %s", bad, slots, degree, c.Level, T, first)
+			if rec.Known(key, msg) {
+				rec.Class("known=" + key)
+				return false, nil
+			}
+			return false, h.Failf(key, "%s", msg)
+		}
+		return true, nil
 	}
-	if out.Level() != wantLevel {
-		return h.Failf("C13:"+mode+":level", "degree %d: input level %d, output level %d, want %d", c.Degree, c.Level, out.Level(), wantLevel)
+	if ok, err := verify(out, c.Coeffs, c.Degree, target, ""); !ok {
+		return err
 	}
-	// scale contract
-	if out.Scale.Cmp(target) != 0 {
-		return h.Failf("C13:"+mode+":scale", "output scale %v != target scale %v", out.Scale.Uint64(), target.Uint64())
-	}
-	if out.Degree() != 1 {
-		return h.Failf("C13:"+mode+":degree", "output ciphertext degree %d", out.Degree())
+	if h := ctHash(ct); h != ctBefore {
+		return failInput(mode, "first", ctBefore, h)
 	}
 
-	// values
-	got := make([]uint64, slots)
-	if err = ecd.Decode(dec.DecryptNew(out), got); err != nil {
-		return h.Failf("C13:bgv:decode", "%v", err)
-	}
-	bad, first := 0, ""
-	for i := 0; i < slots; i++ {
-		var want uint64
-		switch c.Kind {
-		case "vector":
-			if o := c.Owners[i]; o >= 0 {
-				want = hornerModT(c.Coeffs[o], values[i], T)
+	// second polynomial from the same evaluator and the same input object (history: the CoefficientGetter buffer, the
+	// evaluator buffers and - from a PowerBasis - the powers generated for the first polynomial)
+	if c.Degree2 > 0 {
+		rec.Class("second-polynomial")
+		pol2, err := mkPol(c.Coeffs2, false)
+		if err != nil {
+			return err
+		}
+		target2 := params.NewScale(c.Target2)
+		var out2 *rlwe.Ciphertext
+		if c.FromPB {
+			rec.Class("powerbasis-reused")
+			out2, err, pmsg = guarded(func() (*rlwe.Ciphertext, error) { return polyEval.EvaluateFromPowerBasis(pb, pol2, target2) })
+		} else {
+			out2, err, pmsg = guarded(func() (*rlwe.Ciphertext, error) { return polyEval.Evaluate(ct, pol2, target2) })
+		}
+		if err != nil || pmsg != "" {
+			key, msg := "C13:"+mode+":Evaluate:error:second-use", fmt.Sprintf("second polynomial of degree %d (first %d) at level %d, fromPB %v: %v %s", c.Degree2, c.Degree, c.Level, c.FromPB, err, pmsg)
+			if c.Lazy {
+				key = "C13:" + mode + ":Evaluate:error:second-use:lazy"
 			}
-		default:
-			want = hornerModT(c.Coeffs[0], values[i], T)
-		}
-		if got[i] != want {
-			if bad == 0 {
-				first = fmt.Sprintf("slot %d: x=%d got %d want %d", i, values[i], got[i], want)
+			if rec.Known(key, msg) {
+				rec.Class("known=" + key)
+				return nil
 			}
-			bad++
+			return h.Failf(key, "%s", msg)
 		}
-	}
-	if bad != 0 {
-		key, msg := valueKey(mode, c.Kind, c.Lazy, c.MixedParity, c.Shapes[0].Parity, c.Degree), fmt.Sprintf("%d/%d slots wrong (degree %d, level %d, t=%d); %s", bad, slots, c.Degree, c.Level, T, first)
-		if rec.Known(key, msg) {
-			rec.Class("known=" + key)
-			return nil
+		if ok, err := verify(out2, c.Coeffs2, c.Degree2, target2, ":second-use"); !ok {
+			return err
 		}
-		return h.Failf(key, "%s", msg)
+		if h := ctHash(ct); h != ctBefore {
+			return failInput(mode, "second", ctBefore, h)
+		}
+		// the first result must not have been touched by the second evaluation
+		if ok, err := verify(out, c.Coeffs, c.Degree, target, ":first-result-after-second-use"); !ok {
+			return err
+		}
 	}
 
 	// non-trivial rule of the property
@@ -435,9 +527,13 @@ func runBGV(c BGVCase, rec *h.Rec) error {
 			shapes[i] = s.class()
 		}
 		rec.NonTrivial(fmt.Sprintf("%s|%s|deg=%d|lvl-min=%d|n=%d|%s|pb=%v%v|lazy=%v|scales=%v,%v|%s", mode, c.Kind, c.Degree, c.Level-depth, npoly,
-			strings.Join(shapes, ","), c.FromPB, len(c.PBPowers), c.Lazy, c.InScale != 1, c.TargetScale != 1, c.ValPattern))
+			strings.Join(shapes, ","), c.FromPB, len(c.PBPowers), c.Lazy, c.InScale != 1, c.TargetScale != 1, c.ValPattern) + fmt.Sprintf("|second=%d", advertisedDepth(c.Degree2)))
 	}
 	return nil
+}
+
+func failInput(mode, which, before, after string) error {
+	return h.Failf("C13:"+mode+":input-modified", "the input ciphertext changed during the %s evaluation: %s -> %s", which, before, after)
 }
 
 var propBGV = h.NewProp("TestPropBGVPolynomial", h.Budget{Quick: 600, Thorough: 20000}, genBGV, runBGV)
